@@ -221,10 +221,15 @@ pub struct ReqModel {
     pub ends_connection: bool,
 }
 
+/// Tokens of the request's Connection header.  When the header is repeated the first line is the
+/// one that counts: the statements speak of "the Connection header", the tree reads the first one
+/// (in both places that look at it), and the generators only ever repeat it to make sure that
+/// both places agree.
 pub fn connection_tokens(rq: &ReqSpec) -> Vec<String> {
     rq.headers
         .iter()
         .filter(|h| h.name.eq_ignore_ascii_case("connection"))
+        .take(1)
         .flat_map(|h| h.value.split(','))
         .map(|t| t.trim().to_ascii_lowercase())
         .filter(|t| !t.is_empty())
